@@ -558,6 +558,17 @@ void sim_end_run() {
   G.fds.clear();
 }
 
+// a simulated process has ended (exit or return from main): the OS reclaims what it held
+void process_reclaim() {
+  for (auto &kv : G.ostreams) __real_fclose(kv.first);  // exit() flushes and closes open streams
+  G.ostreams.clear();
+  for (auto &kv : G.heap) __real_free(kv.first);
+  G.heap.clear();
+  for (Island &is : G.islands)
+    if (is.live && (is.kind == IS_ANON || is.kind == IS_FILEMAP)) island_release(&is);
+  for (auto &fd : G.fds) fd.open = false;
+}
+
 struct LibFrame {
   void (*fn)(void *);
   void *arg;
